@@ -180,8 +180,13 @@ fn handle(ctx: &mut rink_core::Context, req: &J) -> J {
             }
             let mut last = J::Null;
             if let Some(pre) = req.get("pre").and_then(|p| p.as_array()) {
+                let via_one_line = req.get("one_line").and_then(|x| x.as_bool()).unwrap_or(false);
                 for p in pre {
-                    last = run_query(ctx, p.as_str().unwrap());
+                    if via_one_line {
+                        let _ = catch_unwind(AssertUnwindSafe(|| rink_core::one_line(ctx, p.as_str().unwrap())));
+                    } else {
+                        last = run_query(ctx, p.as_str().unwrap());
+                    }
                 }
             }
             let _ = last;
@@ -391,6 +396,13 @@ fn handle(ctx: &mut rink_core::Context, req: &J) -> J {
             if let Some(k) = req.get("k").filter(|x| !x.is_null()) {
                 let kn = Number { value: numeric(k), unit: Dimensionality::new() };
                 match &s * &kn {
+                    Ok(s2) => s = s2,
+                    Err(e) => return json!({"outcome": "ok", "mul_error": e}),
+                }
+            }
+            if let Some(k) = req.get("kdiv").filter(|x| !x.is_null()) {
+                let kn = Number { value: numeric(k), unit: Dimensionality::new() };
+                match &s / &kn {
                     Ok(s2) => s = s2,
                     Err(e) => return json!({"outcome": "ok", "mul_error": e}),
                 }
